@@ -166,6 +166,7 @@ package wal
 //@   requires w.metaDB != nil && tx != nil && av(w.s) != nil
 //@   assigns w.s, g_commits, av(w.s).refCount, av(w.s).finalizer
 //@   site atomic-store(s) requires[C10.published-after-commit] g_commits == old(g_commits) + 1
+//@   site atomic-store(finalizer) requires[C04.finalizer-after-commit] g_commits == old(g_commits) + 1
 //@   ensures[C04.one-commit-per-txn] result == nil ==> g_commits == old(g_commits) + 1
 //@   ensures[C10.atomic] result != nil ==> g_commits == old(g_commits)
 //@   ensures[C10.published-only-on-success] result != nil ==> av(w.s) == old(av(w.s))
@@ -224,23 +225,30 @@ package wal
 
 //@ func (*WAL).acquireState
 //@   inline
+//@ -- Writers wait for a queued background rotation before touching the state
+//@ -- (g_rot_pending is the ghost "a rotation is queued" flag; the blocking
+//@ -- channel handshake itself is outside the sequential model).
 //@ func (*WAL).awaitRotationLocked
-//@   inline
+//@   trusted blocking channel handshake with the rotation goroutine (DESIGN.md §7)
+//@   assigns g_rot_pending
+//@   ensures g_rot_pending == 0
 
 //@ func (*WAL).truncateHeadLocked
 //@   trusted transaction bodies are covered by the segment-map model (not yet under contract)
 //@   requires[C05.head-newmin-no-overflow] newMin != 0
+//@   requires[C05.no-pending-rotation] g_rot_pending == 0
 //@   assigns g_commits, w.s
 //@   ensures result != nil ==> g_commits == old(g_commits) || g_commits == old(g_commits) + 1
 //@ func (*WAL).truncateTailLocked
 //@   trusted transaction bodies are covered by the segment-map model (not yet under contract)
+//@   requires[C05.no-pending-rotation] g_rot_pending == 0
 //@   assigns g_commits, w.s
 //@   ensures true
 
 //@ func (*WAL).DeleteRange
 //@   props C05 C14
-//@   requires w.metaDB != nil && av(w.s) != nil
-//@   assigns g_commits, w.s, w.awaitRotate, av(w.s).refCount, av(w.s).finalizer
+//@   requires w.metaDB != nil && av(w.s) != nil && WFS(av(w.s))
+//@   assigns g_commits, w.s, w.awaitRotate, av(w.s).refCount, av(w.s).finalizer, g_rot_pending
 //@   ensures[C14.deleterange-closed] w.closed != 0 ==> result == types.ErrClosed && g_commits == old(g_commits)
 //@   ensures[C05.classify-empty] w.closed == 0 && min > max ==> result == nil && g_commits == old(g_commits)
 //@   ensures[C05.classify-outside] w.closed == 0 && min <= max && (max < uint64(g_obs_first) || min > uint64(g_obs_last)) ==> result == nil && g_commits == old(g_commits)
@@ -259,12 +267,14 @@ package wal
 //@   ensures[C14.meta-closed-once] old(w.closed) == 0 ==> nevent("call:types.MetaStore.Close") == 1 && closed(w.triggerRotate)
 
 //@ func (*WAL).FirstIndex
-//@   props C14
-//@   requires av(w.s) != nil
+//@   props C05 C14
+//@   requires av(w.s) != nil && WFS(av(w.s))
 //@   assigns av(w.s).refCount, av(w.s).finalizer, g_obs_first
 //@   ensures[C14.first-closed] w.closed != 0 ==> result1 == types.ErrClosed
+//@   ensures[C05.first-view] w.closed == 0 ==> result1 == nil && result0 == FirstOf(av(w.s))
 //@ func (*WAL).LastIndex
-//@   props C14
-//@   requires av(w.s) != nil
+//@   props C05 C14
+//@   requires av(w.s) != nil && WFS(av(w.s))
 //@   assigns av(w.s).refCount, av(w.s).finalizer, g_obs_last
 //@   ensures[C14.last-closed] w.closed != 0 ==> result1 == types.ErrClosed
+//@   ensures[C05.last-view] w.closed == 0 ==> result1 == nil && result0 == LastOf(av(w.s))
